@@ -5,6 +5,7 @@ import (
 	"math"
 	"os"
 	"path/filepath"
+	"strconv"
 	"strings"
 
 	"github.com/glowlabs-org/gca-backend/client"
@@ -76,6 +77,12 @@ func runEnergy(c *ctx) error {
 			}
 		case 1:
 			n = 0
+		case 2:
+			// a multiple of one of the calibration dividers: the scaled value is a whole number exactly
+			// (a calibration ratio such as 1000/3 is not a float64; the product must be formed first)
+			d := []int{3, 49, 7, 1100, 147}[rng.Intn(5)]
+			n = d * (rng.Intn(2*(400000/d)) - 400000/d) // |mult * n| stays below 2^31 for the model checker
+			k = 0
 		default:
 			n = rng.Intn(400000) - 200000
 		}
@@ -85,7 +92,7 @@ func runEnergy(c *ctx) error {
 		case 0:
 			s = fmt.Sprintf("%g", v)
 		case 1:
-			s = fmt.Sprintf("%e", v)
+			s = strconv.FormatFloat(v, 'e', -1, 64) // exact: the default %e precision would round the reading
 		case 2:
 			s = fmt.Sprintf("%.6f", v)
 		default:
@@ -122,7 +129,7 @@ func runEnergy(c *ctx) error {
 		}
 		return r
 	}
-	cals := [][2]int{{1000, 1000}, {-2000, 1000}, {1, 0}, {3, 7}, {500, 1000}, {-1, 1}}
+	cals := [][2]int{{1000, 1000}, {-2000, 1000}, {1, 0}, {3, 7}, {500, 1000}, {-1, 1}, {1000, 3}, {1, 49}, {-2000, 7}, {1000, 1100}, {10, 3}, {-1000, 147}}
 	nfiles := 1500
 	if c.tier == "thorough" {
 		nfiles = 30000
